@@ -22,7 +22,13 @@ PROP = {
                   "functions (annot_entries) and the zip crate. The *_unfixed_*_fails refutations concern a model of the code BEFORE the fixes, which no longer runs; it was "
                   "checked against the unfixed tree by the harness witnesses only while the fixes were being developed.",
     "expect_theorems": ["C06_channels_match_source", "C06_sheet_list", "C06_merge_roundtrip", "C06_comment_authors", "C06_comment_authors_unfixed_fails", "C06_hyperlink_reload",
-                        "C06_hyperlink_pairing", "C06_undouble_double", "C06_defined_name_roundtrip", "C06_defined_name_text_kept", "C06_defined_name_channel"],
+                        "C06_hyperlink_pairing", "C06_undouble_double", "C06_defined_name_roundtrip", "C06_defined_name_text_kept", "C06_defined_name_channel",
+                        # view / page / protection codecs (Umya/Thm/C06View.lean, imported by Umya/Thm/C06.lean)
+                        "C06_view_attr_channel", "C06_header_footer_text_channel", "C06_sheet_protection_codec", "C06_sheet_protection_flags_distinct",
+                        "C06_sheet_protection_flag_attr", "C06_workbook_protection_codec", "C06_tab_color_codec", "C06_tab_color_reachable", "C06_active_tab",
+                        "C06_defined_name_attrs", "C06_enum_tables", "C06_pane_codec", "C06_selection_codec", "C06_sheet_view_codec", "C06_sheet_view_norm",
+                        "C06_sheet_views_codec", "C06_sheet_view_strict_fails", "C06_active_cell_fails", "C06_page_setup_codec", "C06_page_margins_codec",
+                        "C06_print_options_codec", "C06_header_footer_codec", "C06_header_footer_nonempty", "C06_view_tables_match_source"],
     "rule": "case = one workbook: 8 fixed witnesses (the repaired defects + the residual ones), N workbooks generated from a per-case seed by wb::gen_book with rich "
             "annotations (1-6 sheets, 0..40 hyperlinks with tooltips / location links to quoted sheets, 0..30 comments over a pool of authors incl. the empty one, 0..36 merges, "
             "0..14 data validations, 0..12 conditional formats x 1-3 rules, auto filter, tab colour argb/theme/indexed, panes + selections, page setup / margins / print options, "
